@@ -10,8 +10,6 @@ CLAIMED = {
  "C18": ("tables", "constant-table extraction + exhaustive oracle comparison; role-based AST dataflow (go/ast + go/types)", "DESIGN.md 4/C18",
          "Exhaustive static decision of the finite tables (256 byte values for complement/transcribe, all 16 IUPAC query letters for Match) against an IUPAC oracle in the checker, plus structural rules LOOKUP/WIRE/LITERAL/FOLD on the resolved program. Decides the table and wiring clauses of the property, not regexp or suffix-array semantics.",
          "Trusts bytes.IndexByte/ToLower, regexp, index/suffixarray, sort as documented; the translation helper is checked by roles (LOOKUP)."),
-}
-
  "C14": ("cachekey", "flag-to-payload dependence analysis (position-ordered taint over go/ast+go/types), typestate along go/cfg paths, error-handling idiom matching", "DESIGN.md 4/C14",
          "Static decision of the structural clauses of cache transparency over all 19 cached commands (which have no tests): every option read by a command is in the cache key (KEY-1..4), digest discipline and rewind in TryCache (KEY-5), replay only after a valid open (REPLAY), the tee writes the same bytes to cache and output (TEE), and a failed run cannot commit an entry (COMMIT). Does not decide byte equality of runs.",
          "Trusts encoding/json to encode distinct option values distinctly, hash.Hash.Write never failing, and go/cfg's model of control flow; commands are recognised as the functions of cmd/gts that call (*ioDelegate).TryCache."),
